@@ -187,9 +187,13 @@ def AICc(N, rho, k, norm=True):
     :validation: double checked versus octave.
     """
     from numpy import log, array
+    from numpy import where, inf
     p = k  #todo check convention. agrees with octave
-    res = log(rho) + 2. * (p+1) / (N-p-2)
-    return res
+    # the small-sample correction grows without bound as p approaches N-2
+    # and is undefined from there on
+    den = N - p - 2.
+    res = where(den > 0, log(rho) + 2. * (p+1) / where(den > 0, den, 1.), inf)
+    return res if res.ndim else float(res)
 
 
 def KIC(N, rho, k):
@@ -211,9 +215,13 @@ def AKICc(N, rho, k):
 
     """
     from numpy import log, array
+    from numpy import where, inf
     p = k
-    res = log(rho) + p/N/(N-p) + (3.-(p+2.)/N) * (p+1.) / (N-p-2.)
-    return res
+    # the small-sample correction grows without bound as p approaches N-2
+    # and is undefined from there on
+    den = N - p - 2.
+    res = where(den > 0, log(rho) + p/N/(N-p) + (3.-(p+2.)/N) * (p+1.) / where(den > 0, den, 1.), inf)
+    return res if res.ndim else float(res)
 
 
 def FPE(N,rho, k=None):
